@@ -360,3 +360,33 @@ def _kinds(repo):
     lean = ("def c09KindDisplay : List (String × String) := %s\n"
             "def c09ReprKind : List (String × String) := %s" % (_pairs(names), _pairs(sorted(rk))))
     return {"display": names, "repr_kind": sorted(rk)}, lean
+
+
+@item("C09_INDEXABLE_OBJECTS")
+def _indexable(repo):
+    """every `impl Object for T` in minijinja/src that defines `get_value`, and whether that
+    `get_value` has an integer-key path (`as_usize` / `as_i64` / forwards to `get_item`).  The C09
+    harness must subscript a value of each integer-indexable type (lib/props/c09.py checks it)."""
+    import os
+    root = os.path.join(repo, "minijinja", "src")
+    found = []
+    for dp, _, fs in sorted(os.walk(root)):
+        for fn in sorted(fs):
+            if not fn.endswith(".rs"):
+                continue
+            rel = os.path.relpath(os.path.join(dp, fn), repo)
+            src = read(repo, rel)
+            code = re.sub(r"^\s*//[/!].*$", "", src, flags=re.M)
+            for m in re.finditer(r"\bimpl(?:<[^>{]*>)?\s+Object\s+for\s+([^\{]+?)\s*(?:\bwhere\b[^\{]*)?\{", code):
+                name = re.sub(r"\s+", " ", m.group(1)).strip()
+                body = fn_body(code[m.start():], r"\{")
+                g = re.search(r"fn get_value\s*\(", body)
+                if not g:
+                    continue
+                gv = fn_body(body[g.start():], r"\)\s*->\s*Option<Value>\s*\{")
+                intpath = bool(re.search(r"as_usize\(\)|as_i64\(\)|\.get_item\(", gv))
+                found.append((os.path.basename(rel) + ":" + name, "int" if intpath else "other"))
+    if not found:
+        raise KeyError("no Object impls with get_value")
+    lean = "def c09IndexableObjects : List (String × String) := %s" % _pairs(found)
+    return found, lean
